@@ -802,6 +802,9 @@ func (m *Model) construct(id, fn string, args []any) (any, error) {
 	case "NewVal":
 		m.count(id + ".NewVal")
 		return &MObj{ID: m.fresh(), Ty: id + ".Val", Ctor: "NewVal", Args: args}, nil
+	case "NewStr":
+		// a plain string (what a getter typed with a named string type converts)
+		return id + ".NewStr(" + renderArgs(args) + ")", nil
 	case "NewE":
 		if len(args) > 0 && args[0] == "fail" {
 			m.count(id + ".NewE!")
